@@ -275,8 +275,19 @@ def _expr_form(idx: PyIndex, fi: FuncInfo, call: ast.Call, h: FuncInfo) -> Optio
             else:
                 return None
     # arguments are substituted textually: only side-effect-free, cheap argument expressions
-    if not all(isinstance(v, (ast.Name, ast.Constant)) or (isinstance(v, ast.Attribute) and _is_path(v)) for v in bound.values()):
-        return None
+    def cheap(v):
+        return isinstance(v, (ast.Name, ast.Constant)) or (isinstance(v, ast.Attribute) and _is_path(v))
+    if not all(cheap(v) for v in bound.values()):
+        # any other argument expression is fine for a parameter the helper reads exactly once, outside nested scopes (it is then evaluated once, as before)
+        uses: Dict[str, int] = {}
+        for x in ast.walk(n):
+            if isinstance(x, ast.Name) and isinstance(x.ctx, ast.Load):
+                uses[x.id] = uses.get(x.id, 0) + 1
+        nested = {x.id for d in ast.walk(n) if isinstance(d, (ast.Lambda, ast.GeneratorExp, ast.ListComp, ast.SetComp, ast.DictComp)) or (d is not n and isinstance(d, ast.FunctionDef))
+                  for x in ast.walk(d) if isinstance(x, ast.Name)}
+        for p_, v in bound.items():
+            if not cheap(v) and (uses.get(p_, 0) != 1 or p_ in nested or any(isinstance(x, (ast.NamedExpr, ast.Yield, ast.Await)) for x in ast.walk(v))):
+                return None
     def conv(stmts, env, depth=0):
         if depth > 8:
             return None
@@ -434,8 +445,11 @@ def _expand(idx: PyIndex, fi: FuncInfo, call: ast.Call, h: FuncInfo, at: ast.AST
                     rc = idx.resolve(fi.module, x.id)
                     same = rh is not None and rc is not None and (rh.kind, rh.module, rh.name, rh.target_mod, rh.target_name) == \
                         (rc.kind, rc.module, rc.name, rc.target_mod, rc.target_name)
+                    if not same and rh is not None and rc is not None and rh.kind == rc.kind and rh.target_mod and (rh.target_mod, rh.target_name) == (rc.target_mod, rc.target_name):
+                        same = True         # both modules import the same thing (`from pathlib import Path` twice)
                     if not same:
-                        alias = f'_m{abs(hash(h.module)) % 9973}_{x.id}'
+                        import zlib
+                        alias = f'_m{zlib.crc32(h.module.encode()) % 9973}_{x.id}'
                         cs.setdefault(alias, hs[x.id])
                         x.id = alias
     body = [_Rename(ren).visit(s) for s in hn.body]
